@@ -394,10 +394,40 @@ func TestC05_P_FileRangeHistory(t *testing.T) {
 		}
 		want := map[cid.Cid]bool{}
 		steps := rapid.IntRange(2, 7).Draw(t, "steps")
-		forwardSkip := false
+		forwardSkip, readAtEnd := false, false
 		n := int64(len(fc.Data))
 		for s := 0; s < steps; s++ {
 			r := readers[rapid.IntRange(0, nreaders-1).Draw(t, "reader")]
+			if rapid.IntRange(0, 5).Draw(t, "readAtEnd") == 0 {
+				// a read positioned at or behind the end: [len+d, len+d+k) touches no block, so nothing may be requested
+				d := int64(rapid.SampledFrom([]int{0, 0, 1, 1000}).Draw(t, "behindEnd"))
+				whence := rapid.IntRange(0, 2).Draw(t, "whence")
+				off := n + d
+				switch whence {
+				case io.SeekCurrent:
+					off = n + d - r.pos
+				case io.SeekEnd:
+					off = d
+				}
+				buf := make([]byte, rapid.IntRange(1, 40).Draw(t, "k"))
+				var got int
+				var rerr error
+				must(t, "seek to the end + read", func() {
+					if _, rerr = r.rs.Seek(off, whence); rerr != nil {
+						return
+					}
+					got, rerr = r.rs.Read(buf)
+				})
+				if got != 0 || rerr != io.EOF {
+					t.Fatalf("C05 [%s] step %d: Read at %d (file has %d bytes) = (%d, %v), want (0, EOF)", fc.Desc, s, n+d, n, got, rerr)
+				}
+				r.pos = n + d
+				if c, ok := subsetOf(fc.St.ReadLog(), want); !ok {
+					t.Fatalf("C05 [%s] step %d: a %d-byte Read at %d, at or behind the end of the %d-byte file (whence %d), requested block %s although the range touches no block", fc.Desc, s, len(buf), n+d, n, whence, c)
+				}
+				readAtEnd = true
+				continue
+			}
 			a, b := genRange(t, fc)
 			if b-a > 40 {
 				b = a + int64(rapid.IntRange(1, 40).Draw(t, "shorten"))
@@ -442,6 +472,9 @@ func TestC05_P_FileRangeHistory(t *testing.T) {
 		fs := ""
 		if forwardSkip {
 			fs = "forward-skip-after-read"
+		}
+		if readAtEnd {
+			fs += " read-at-end"
 		}
 		ev.Case(fmt.Sprintf("%s d=%d steps=%d r=%d %s", fc.Writer, fc.Tree.Depth(), steps, nreaders, fs), steps >= 3 && fc.Tree.Depth() >= 3 && forwardSkip,
 			"writer:"+fc.Writer, fmt.Sprintf("steps:%d", steps), fmt.Sprintf("readers:%d", nreaders), fs)
